@@ -27,6 +27,9 @@ var c14Variants = []c14Variant{
 
 var c14Lens = []int{0, 1, 2, 255, 256, 257, 2048, 5000}
 
+// thorough: every threshold of the decoder's sub-allocator (256 direct, 2048 block) and of page-sized copies, +-1
+var c14LensThorough = []int{0, 1, 2, 3, 7, 8, 9, 31, 32, 33, 255, 256, 257, 2047, 2048, 2049, 4095, 4096, 4097, 5000, 70000}
+
 func c14Core(vs []c14Variant, ids []uint16) *ref.Struct {
 	s := &ref.Struct{}
 	for i, v := range vs {
@@ -51,7 +54,7 @@ func init() {
 		Phases: func(tier universe.Tier) []*harness.Phase {
 			return []*harness.Phase{{
 				Name: "nocopy-views",
-				Rule: "two-field types: 9x9 variants (plain/nocopy x value/pointer x plain/named Go type) x 2 id orders x 3 nestings x 8x8 value lengths x 2 wire orders; three-field types: 9^3 variants x 3 nestings x 8 length diagonals x 6 wire orders; distinct by (type, message)",
+				Rule: "two-field types: 9x9 variants (plain/nocopy x value/pointer x plain/named Go type) x 2 id orders x 3 nestings x 8x8 (thorough 21x21) value lengths x 2 wire orders; three-field types: 9^3 variants x 3 nestings x 8 length diagonals x 6 wire orders; distinct by (type, message)",
 				Body: func(c *explore.C) { c14Body(c, tier) },
 			}, {
 				Name: "nocopy-nested",
@@ -78,13 +81,17 @@ func c14Body(c *explore.C, tier universe.Tier) {
 	}
 	nest := c.Choose(3, explore.Data, "nest")
 	lens := make([]int, nf)
+	ls := c14Lens
+	if tier == universe.Thorough {
+		ls = c14LensThorough
+	}
 	if nf == 2 {
-		lens[0] = c14Lens[c.Choose(len(c14Lens), explore.Data, "len0")]
-		lens[1] = c14Lens[c.Choose(len(c14Lens), explore.Data, "len1")]
+		lens[0] = ls[c.Choose(len(ls), explore.Data, "len0")]
+		lens[1] = ls[c.Choose(len(ls), explore.Data, "len1")]
 	} else {
-		d := c.Choose(len(c14Lens), explore.Data, "len-diagonal")
+		d := c.Choose(len(ls), explore.Data, "len-diagonal")
 		for i := range lens {
-			lens[i] = c14Lens[(d+3*i)%len(c14Lens)]
+			lens[i] = ls[(d+3*i)%len(ls)]
 		}
 	}
 	perms := permutations(nf)
